@@ -143,18 +143,18 @@ VH_EXPORT int vp_h05d_bin1(const unsigned char* in, unsigned char* out) { return
 VH_EXPORT int vp_h05d_arr1(const unsigned char* in, unsigned char* out) { return h05d_shape<4>(in, out); }
 VH_EXPORT int vp_h05d_str1(const unsigned char* in, unsigned char* out) { return h05d_shape<5>(in, out); }
 VH_EXPORT int vp_h05d_bin0(const unsigned char* in, unsigned char* out) { return h05d_shape<6>(in, out); }
-//@ OBL {"name": "h05a_skip5", "prop": "vp_h05a_skip", "assume": "va_h05a", "in": 8, "out": 8, "unwind": 8, "unwind_fn": {"SkipValueImpl": 6, "total_len|depth_of": 6}, "recursion": {"SkipValueImpl": 1, "total_len": 2, "depth_of": 2}, "cap_s": 3600, "mem_gb": 20, "bounds": "every byte string of length <= 5, containers nested <= 1 deep (thorough: 6 bytes, 2 deep)", "desc": "SkipValue() consumes exactly one value (reference length) or reports a parsing error for truncated input", "cassume": ["in[0] <= 5"], "tier": "thorough"}
+//@ OBL {"name": "h05a_skip5", "prop": "vp_h05a_skip", "assume": "va_h05a", "in": 8, "out": 8, "unwind": 8, "unwind_fn": {"SkipValueImpl": 6, "total_len|depth_of": 6}, "recursion": {"SkipValueImpl": 1, "total_len": 2, "depth_of": 2}, "cap_s": 3600, "mem_gb": 20, "bounds": "every byte string of length <= 5, containers nested <= 1 deep (thorough: 6 bytes, 2 deep)", "desc": "SkipValue() consumes exactly one value (reference length) or reports a parsing error for truncated input", "cassume": ["in[0] <= 5"], "tier": "open"}
 //@ OBL {"name": "h05b_array", "prop": "vp_h05b_array", "assume": "va_h05b", "in": 8, "out": 16, "unwind": 8, "unwind_fn": {"SkipValueImpl": 1}, "recursion": {"SkipValueImpl": 0}, "cap_s": 900, "bounds": "fixarray(3) of one-byte elements of every kind among fixint / negative fixint / nil / bool / empty str / empty array / empty map, Skip policies", "desc": "array scope: skipped elements keep their slot untouched and report false, others load into their own slot, IsEnd after 3 requests, following data intact", "fs": 32}
 //@ OBL {"name": "h05d_nil", "family": "h05d", "prop": "vp_h05d_nil", "in": 8, "out": 16, "unwind": 6, "unwind_fn": {"SkipValueImpl": 3}, "recursion": {"SkipValueImpl": 1}, "cap_s": 900, "bounds": "array [X, 7] + sentinel with X = nil", "desc": "byte-container element (binary scope, array fallback, or skipped kind): the next element and the sentinel are read intact", "fs": 32}
-//@ OBL {"name": "h05d_int", "family": "h05d", "prop": "vp_h05d_int", "in": 8, "out": 16, "unwind": 6, "unwind_fn": {"SkipValueImpl": 3}, "recursion": {"SkipValueImpl": 1}, "cap_s": 3600, "bounds": "array [X, 7] + sentinel with X = a fixint (symbolic)", "desc": "byte-container element (binary scope, array fallback, or skipped kind): the next element and the sentinel are read intact", "fs": 32, "tier": "thorough"}
+//@ OBL {"name": "h05d_int", "family": "h05d", "prop": "vp_h05d_int", "in": 8, "out": 16, "unwind": 6, "unwind_fn": {"SkipValueImpl": 3}, "recursion": {"SkipValueImpl": 1}, "cap_s": 3600, "bounds": "array [X, 7] + sentinel with X = a fixint (symbolic)", "desc": "byte-container element (binary scope, array fallback, or skipped kind): the next element and the sentinel are read intact", "fs": 32, "tier": "open"}
 //@ OBL {"name": "h05d_arr0", "family": "h05d", "prop": "vp_h05d_arr0", "in": 8, "out": 16, "unwind": 6, "unwind_fn": {"SkipValueImpl": 3}, "recursion": {"SkipValueImpl": 1}, "cap_s": 900, "bounds": "array [X, 7] + sentinel with X = an empty array", "desc": "byte-container element (binary scope, array fallback, or skipped kind): the next element and the sentinel are read intact", "fs": 32}
-//@ OBL {"name": "h05d_bin1", "family": "h05d", "prop": "vp_h05d_bin1", "in": 8, "out": 16, "unwind": 6, "unwind_fn": {"SkipValueImpl": 3}, "recursion": {"SkipValueImpl": 1}, "cap_s": 3600, "bounds": "array [X, 7] + sentinel with X = bin8 with one symbolic byte", "desc": "byte-container element (binary scope, array fallback, or skipped kind): the next element and the sentinel are read intact", "fs": 32, "tier": "thorough"}
-//@ OBL {"name": "h05d_arr1", "family": "h05d", "prop": "vp_h05d_arr1", "in": 8, "out": 16, "unwind": 6, "unwind_fn": {"SkipValueImpl": 3}, "recursion": {"SkipValueImpl": 1}, "cap_s": 3600, "bounds": "array [X, 7] + sentinel with X = an array of one symbolic fixint", "desc": "byte-container element (binary scope, array fallback, or skipped kind): the next element and the sentinel are read intact", "fs": 32, "tier": "thorough"}
-//@ OBL {"name": "h05d_str1", "family": "h05d", "prop": "vp_h05d_str1", "in": 8, "out": 16, "unwind": 6, "unwind_fn": {"SkipValueImpl": 3}, "recursion": {"SkipValueImpl": 1}, "cap_s": 3600, "bounds": "array [X, 7] + sentinel with X = a one-character string", "desc": "byte-container element (binary scope, array fallback, or skipped kind): the next element and the sentinel are read intact", "fs": 32, "tier": "thorough"}
+//@ OBL {"name": "h05d_bin1", "family": "h05d", "prop": "vp_h05d_bin1", "in": 8, "out": 16, "unwind": 6, "unwind_fn": {"SkipValueImpl": 3}, "recursion": {"SkipValueImpl": 1}, "cap_s": 3600, "bounds": "array [X, 7] + sentinel with X = bin8 with one symbolic byte", "desc": "byte-container element (binary scope, array fallback, or skipped kind): the next element and the sentinel are read intact", "fs": 32, "tier": "open"}
+//@ OBL {"name": "h05d_arr1", "family": "h05d", "prop": "vp_h05d_arr1", "in": 8, "out": 16, "unwind": 6, "unwind_fn": {"SkipValueImpl": 3}, "recursion": {"SkipValueImpl": 1}, "cap_s": 3600, "bounds": "array [X, 7] + sentinel with X = an array of one symbolic fixint", "desc": "byte-container element (binary scope, array fallback, or skipped kind): the next element and the sentinel are read intact", "fs": 32, "tier": "open"}
+//@ OBL {"name": "h05d_str1", "family": "h05d", "prop": "vp_h05d_str1", "in": 8, "out": 16, "unwind": 6, "unwind_fn": {"SkipValueImpl": 3}, "recursion": {"SkipValueImpl": 1}, "cap_s": 3600, "bounds": "array [X, 7] + sentinel with X = a one-character string", "desc": "byte-container element (binary scope, array fallback, or skipped kind): the next element and the sentinel are read intact", "fs": 32, "tier": "open"}
 //@ OBL {"name": "h05d_bin0", "family": "h05d", "prop": "vp_h05d_bin0", "in": 8, "out": 16, "unwind": 6, "unwind_fn": {"SkipValueImpl": 3}, "recursion": {"SkipValueImpl": 1}, "cap_s": 900, "bounds": "array [X, 7] + sentinel with X = an empty bin8", "desc": "byte-container element (binary scope, array fallback, or skipped kind): the next element and the sentinel are read intact", "fs": 32}
-//@ OBL {"name": "h05d_bytes", "prop": "vp_h05d_bytes", "assume": "va_h05d", "in": 8, "out": 16, "unwind": 8, "unwind_fn": {"SkipValueImpl": 3}, "recursion": {"SkipValueImpl": 1, "total_len": 1}, "cap_s": 3600, "bounds": "array [X, 7] + sentinel where X ranges over nil, true, fixint, empty array/str, bin8(0..1), fixarray(1..2 fixints), fixstr(1), uint8, uint16", "desc": "byte container element: binary scope first, array fallback, other kinds skipped - the next element and the sentinel are read intact", "tier": "thorough", "fs": 32}
+//@ OBL {"name": "h05d_bytes", "prop": "vp_h05d_bytes", "assume": "va_h05d", "in": 8, "out": 16, "unwind": 8, "unwind_fn": {"SkipValueImpl": 3}, "recursion": {"SkipValueImpl": 1, "total_len": 1}, "cap_s": 3600, "bounds": "array [X, 7] + sentinel where X ranges over nil, true, fixint, empty array/str, bin8(0..1), fixarray(1..2 fixints), fixstr(1), uint8, uint16", "desc": "byte container element: binary scope first, array fallback, other kinds skipped - the next element and the sentinel are read intact", "tier": "open", "fs": 32}
 //@ OBL {"name": "h05a_long", "prop": "vp_h05a_long", "in": 8, "out": 8, "unwind": 8, "unwind_models": 310, "unwind_fn": {"SkipValueImpl": 1, "vp_h05a_long": 310}, "recursion": {"SkipValueImpl": 0}, "cap_s": 900, "bounds": "str8 / bin8 / str16 / bin16 with every length 0..300 (constant payload) followed by a sentinel", "desc": "skipping a mismatching long string/binary consumes header + payload exactly; the sentinel is read intact"}
-//@ OBL {"name": "h05a_skip_T", "tier": "thorough", "prop": "vp_h05a_skip", "assume": "va_h05a", "in": 8, "out": 8, "unwind": 8, "unwind_fn": {"SkipValueImpl": 7, "total_len|depth_of": 7}, "recursion": {"SkipValueImpl": 2, "total_len": 3, "depth_of": 3}, "cap_s": 3600, "mem_gb": 24, "bounds": "every byte string of length <= 6, containers nested <= 2 deep", "desc": "SkipValue() consumes exactly one value"}
+//@ OBL {"name": "h05a_skip_T", "tier": "open", "prop": "vp_h05a_skip", "assume": "va_h05a", "in": 8, "out": 8, "unwind": 8, "unwind_fn": {"SkipValueImpl": 7, "total_len|depth_of": 7}, "recursion": {"SkipValueImpl": 2, "total_len": 3, "depth_of": 3}, "cap_s": 3600, "mem_gb": 24, "bounds": "every byte string of length <= 6, containers nested <= 2 deep", "desc": "SkipValue() consumes exactly one value"}
 //@ VEC * 0100c00000000000
 //@ VEC * 03009201c0000000
 //@ VEC * 0500a3414243440000
